@@ -237,7 +237,7 @@ def normalize_pose(k, p):
 # consistent trajectory graphs (C05, C07, C08, C12, C16 ...)
 # --------------------------------------------------------------------------- #
 def trajectory_graph(rng, k, n, n_loops=0, n_lm=0, meas_t=0.0, meas_r=0.0, init_t=0.0, init_r=0.0,
-                     cond=10.0, cross=True, step=1.0, scale=5.0, lm_offsets=True, start=None, uturn=0.0, straight_init=False, share_landmark_guess=False, lm_init=None):
+                     cond=10.0, cross=True, step=1.0, scale=5.0, lm_offsets=True, start=None, uturn=0.0, straight_init=False, share_landmark_guess=False, lm_init=None, q_signs=False):
     """Ground-truth trajectory of n poses of kind k + odometry / loop / landmark measurements.
     Returns a spec (vertices hold the perturbed initial guess) with extra keys 'truth'."""
     kp = R.POINT_OF[k]
@@ -304,6 +304,14 @@ def trajectory_graph(rng, k, n, n_loops=0, n_lm=0, meas_t=0.0, meas_r=0.0, init_
         c0 = [float(np.mean([L[j] for L in lms])) for j in range(len(lms[0]))]
         linit = [list(c0) for _ in lms]
         share = [[n + m for m in range(len(lms))]]
+    if q_signs and k == "se3":
+        # the same rotations written with the antipodal quaternion (any unit quaternion is a legal representation)
+        init = [p[:3] + [-x for x in p[3:]] if rng.random() < 0.4 else p for p in init]
+        for e in edges:
+            if e["est_kind"] == "se3" and rng.random() < 0.4:
+                e["est"] = e["est"][:3] + [-x for x in e["est"][3:]]
+            if e.get("off_kind") == "se3" and rng.random() < 0.4:
+                e["off"] = e["off"][:3] + [-x for x in e["off"][3:]]
     vertices = [{"id": i, "kind": k, "pose": p, "fixed": i == 0} for i, p in enumerate(init)]
     vertices += [{"id": n + m, "kind": kp, "pose": p, "fixed": False} for m, p in enumerate(linit)]
     out = {"vertices": vertices, "edges": edges, "truth": truth + lms}
@@ -363,7 +371,7 @@ def fingerprint(obj):
 # --------------------------------------------------------------------------- #
 def cluster_graph(rng, kinds=None, size=(2, 6), noise_t=0.05, noise_r=0.03, init_t=0.2, init_r=0.1, cond=100.0,
                   custom=True, landmarks=True, multi=True, reverse=True, shuffle=True, weird_ids=True,
-                  extra_fixed=True, numeric_custom=None, scale=4.0, cross=None, fix_mode=None, alias=False, special=False):
+                  extra_fixed=True, numeric_custom=None, scale=4.0, cross=None, fix_mode=None, alias=False, special=False, wide_info=False):
     """Returns (spec, labels).  Every cluster (= connected component before landmark links) holds one fixed vertex,
     unless fix_mode == 'first' (then only the first listed vertex is fixed and there is a single pose cluster)."""
     labels = set()
@@ -565,6 +573,14 @@ def cluster_graph(rng, kinds=None, size=(2, 6), noise_t=0.05, noise_r=0.03, init
         k0, ids0 = clusters[0]
         j = next(i for i, v in enumerate(vertices) if v["id"] in ids0)
         vertices[0], vertices[j] = vertices[j], vertices[0]
+    if wide_info:
+        # edges of wildly different weight in one graph (a laser-grade constraint next to a guess), or all information tiny / huge
+        mode = str(rng.choice(["per_edge", "all_tiny", "all_huge"]))
+        g0 = float(10 ** rng.uniform(-12, -7)) if mode == "all_tiny" else float(10 ** rng.uniform(5, 9)) if mode == "all_huge" else 1.0
+        for e in edges:
+            sc = g0 * (float(10 ** rng.uniform(-5, 5)) if mode == "per_edge" else 1.0)
+            e["info"] = (np.array(e["info"]) * sc).tolist()
+        labels.add("information_scales:" + mode)
     if rng.random() < 0.15:
         # fixed flags given as 0/1 integers (the repository's own tests do this) - truthiness is what counts
         for v in vertices:
